@@ -46,20 +46,28 @@ type SignerDirect interface {
 
 // getVNormalized returns the original 27/28 parity
 func (s *SignatureData) getVNormalized(chainID int64) (byte, error) {
+	if s.V == nil || !s.V.IsInt64() {
+		return 0, fmt.Errorf("invalid V value in signature (chain ID = %d, V = %s)", chainID, s.V)
+	}
 	v := s.V.Int64()
-	var vB byte
+	// Compare before narrowing to a byte, so that V values that only match modulo 256 (or 2^64) are rejected
+	var vN int64
 	switch v {
 	case 0, 1:
-		vB = byte(v + 27)
+		vN = v + 27
 	case 27, 28:
-		vB = byte(v)
+		vN = v
 	default:
-		vB = byte(v - 35 - (chainID * 2) + 27)
+		vN = v - 35 - (chainID * 2) + 27
+		if v >= 0 && v <= 0xff {
+			// A single byte V can only be the low 8 bits of an EIP-155 V (see CompactRSV)
+			vN = int64(byte(vN))
+		}
 	}
-	if vB != 27 && vB != 28 {
+	if vN != 27 && vN != 28 {
 		return 0, fmt.Errorf("invalid V value in signature (chain ID = %d, V = %d)", chainID, v)
 	}
-	return vB, nil
+	return byte(vN), nil
 }
 
 // EIP-155 rules - 2xChainID + 35 - starting point must be legacy 27/28
